@@ -204,11 +204,15 @@ def gen_prog(r, pid, services=False, scopes=False):
             c = r.intn(10)
             if c < 2:
                 n = fresh("Td")
-                p.typedefs[(f, n)] = gen_ty(2, "ET")       # typedef of struct is generated as a Go type alias chain; keep to E/T/base/containers
+                enums_here = [Ty("E", file=ff, name=nn) for (ff, nn) in p.enums if ff in visible]
+                if enums_here and r.chance(35):
+                    p.typedefs[(f, n)] = r.pick(enums_here)   # typedef of an enum: wire type and pointer-ness go through the typedef
+                else:
+                    p.typedefs[(f, n)] = gen_ty(2, "ET")       # typedef of struct is generated as a Go type alias chain; keep to E/T/base/containers
                 p.order[f].append(("t", n))
             elif c < 4:
                 n = fresh("En")
-                vals, cur = [], r.intn(3)
+                vals, cur = [], (0 if r.chance(50) else r.intn(3))
                 for _ in range(1 + r.intn(4)):
                     vals.append(cur); cur += 1 + r.intn(4)
                 p.enums[(f, n)] = vals
